@@ -68,7 +68,7 @@ def _count_poly(S: Sem, iters, at: int):
     total = Rat.const(1)
     for tg, it, _ in iters:
         if isinstance(it, ast.Call) and call_name(it) == "range" and len(it.args) == 1:
-            total = total * to_rat(it.args[0], env)
+            total = total * to_rat(S.resolve(it.args[0], at), env)
         elif isinstance(it, ast.Call) and call_name(it) in ("np.ndindex", "numpy.ndindex") and len(it.args) == 1 and isinstance(it.args[0], ast.Starred) \
                 and isinstance(it.args[0].value, ast.Name):
             v = it.args[0].value.id
@@ -78,18 +78,52 @@ def _count_poly(S: Sem, iters, at: int):
     return total, env
 
 
+def _child_ctor(S: Sem, f, child_cls: str):
+    """[(site in f, constructor call in the caller's terms)] — the child constructor written in divide() itself, or reached through a
+    private helper whose body is temporaries + `return Child(...)` (β-reduced at the call site)."""
+    out = []
+    for c in ast.walk(f.node):
+        if not isinstance(c, ast.Call):
+            continue
+        if call_name(c) == child_cls:
+            out.append((c, c))
+            continue
+        nm = c.func.id if isinstance(c.func, ast.Name) else c.func.attr if isinstance(c.func, ast.Attribute) and isinstance(c.func.value, ast.Name) \
+            and c.func.value.id in ("self", "cls") else None
+        if nm and nm.startswith("_") and not nm.startswith("__"):
+            bound = set()
+            x = c
+            while x in S.pm:
+                x = S.pm[x]
+                if isinstance(x, (ast.ListComp, ast.GeneratorExp, ast.SetComp, ast.DictComp)):
+                    bound |= {n.id for g in x.generators for n in ast.walk(g.target) if isinstance(n, ast.Name)}
+                elif isinstance(x, ast.For):
+                    bound |= {n.id for n in ast.walk(x.target) if isinstance(n, ast.Name)}
+            saved = S.keep_names
+            S.keep_names = saved | bound
+            try:
+                inl = S._inline_in_comp(c, S.du.node_of_expr(c), 8, set(), False, bound)
+            except AnalysisError:
+                inl = None
+            finally:
+                S.keep_names = saved
+            if isinstance(inl, ast.Call) and call_name(inl) == child_cls:
+                out.append((c, inl))
+    return out
+
+
 def _divide_rule(rule, f, child_cls: str, idx=None) -> None:
     from ..algebra import Rat, to_rat
     S = Sem(idx, f)
     cfg, du, pm = S.cfg, S.du, S.pm
     rule.instance(f.short)
-    ctor = [c for c in ast.walk(f.node) if isinstance(c, ast.Call) and call_name(c) == child_cls]
+    ctor = _child_ctor(S, f, child_cls)
     if len(ctor) != 1:
-        raise AnalysisError(f"{f.short}: expected one {child_cls}(…) child constructor")
-    c = ctor[0]
+        raise AnalysisError(f"{f.short}: expected one {child_cls}(…) child constructor (in it or in a private helper it calls), found {len(ctor)}")
+    c, cexp = ctor[0]
     cst = enclosing(pm, c, ast.stmt)
     at = cfg.node(cst)
-    fac = kwarg(c, "factor")
+    fac = kwarg(cexp, "factor")
     if fac is None:
         rule.violation(f, c, "children are created without a factor (default weight 1 each)", stmt="factor missing")
         return
@@ -128,6 +162,71 @@ def _divide_rule(rule, f, child_cls: str, idx=None) -> None:
         lst = cst.targets[0].id
     rule.check(lst is not None and all(norm(r.value) == lst for r in rets), "all children are returned", f, rets[0] if rets else f.node,
                f"divide() collects its children in `{lst}` but returns `{norm1(rets[0].value) if rets else None}`")
+
+
+def restart_weights(ctx) -> None:
+    """R06.6 — on restart every K-point of the stored list gets a weight: its stored factor, or 0 when it was created after the
+    iteration restarted from (otherwise it keeps the pickled weight next to its re-activated parent: Σ weights > 1)."""
+    from ..algebra import Rat, to_rat
+    from ..sem import seq_segments
+    idx = ctx.index
+    r6 = ctx.rule("R06.6", "restart: every stored K-point receives a weight (stored factor, or 0 for later points)")
+    runf = idx.function("wannierberri/run_grid.py", "run")
+    RS = Sem(idx, runf)
+    sites = []
+    for c in method_calls(runf.node, "set_factor"):
+        st = enclosing(RS.pm, c, ast.stmt)
+        if any(t_ == "restart" and p_ for t_, p_, _ in RS.conditions(st, resolve=False)) and len(c.args) == 1:
+            sites.append((c, st))
+    r6.expect(len(sites) == 1, "restart weight assignment located", runf, runf.node,
+              f"run(): expected one `Kp.set_factor(…)` in the restart branch, found {len(sites)}")
+    if len(sites) != 1:
+        return
+    c, st = sites[0]
+    r6.instance(f"{runf.short}: {norm1(st)}")
+    lp = enclosing(RS.pm, c, ast.For)
+    if lp is None:
+        r6.expect(False, "", runf, st, "run(): the restart weights are not assigned in a loop over the stored K-points")
+        return
+    it = lp.iter
+    if isinstance(it, ast.Call) and call_name(it) == "enumerate" and it.args:
+        it = it.args[0]
+    at = RS.cfg.node(lp)
+    ok, why = False, ""
+    if isinstance(it, ast.Call) and call_name(it) in ("zip_longest", "itertools.zip_longest") and len(it.args) == 2:
+        fv = kwarg(it, "fillvalue", 99)
+        ok = fv is not None and const_of(fv) in (0, 0.0)
+        why = "zip_longest without fillvalue=0"
+    elif isinstance(it, ast.Call) and call_name(it) == "zip" and len(it.args) == 2:
+        A, B = it.args
+        segs = seq_segments(RS, B, at)
+
+        def env(x):
+            if isinstance(x, ast.Call) and call_name(x) == "len" and len(x.args) == 1:
+                return Rat.sym("len:" + norm(x.args[0]))
+            if isinstance(x, ast.Attribute) and x.attr == "size":
+                return Rat.sym("len:" + norm(x.value))
+            if isinstance(x, ast.Subscript) and isinstance(x.value, ast.Attribute) and x.value.attr == "shape" and norm(x.slice) == "0":
+                return Rat.sym("len:" + norm(x.value.value))
+            return None
+        why = f"the stored factors `{norm1(B)}` are zipped with `{norm1(A)}` without being padded to its length: zip() stops at the shorter one"
+        if segs is not None and len(segs) == 2 and segs[0][0] == "seq" and segs[1][0] == "seq":
+            F, Z = segs[0][1], segs[1][1]
+            if isinstance(Z, ast.Call) and call_name(Z) in ("np.zeros", "numpy.zeros") and Z.args:
+                try:
+                    RS.keep_names = {n2.id for n2 in ast.walk(A) if isinstance(n2, ast.Name)} | {n2.id for n2 in ast.walk(F) if isinstance(n2, ast.Name)}
+                    n_ = to_rat(RS.resolve(Z.args[0], segs[1][2]) if any(Z.args[0] is x for x in ast.walk(runf.node)) else Z.args[0], env)
+                    RS.keep_names = set()
+                    ok = n_.equals(Rat.sym("len:" + norm(A)) - Rat.sym("len:" + norm(F)))
+                except AnalysisError:
+                    ok = False
+                why = f"the padding `{norm1(Z)}` is not len({norm1(A)}) − len({norm1(F)}) zeros"
+    else:
+        r6.expect(False, "", runf, lp, f"run(): restart loop over `{norm1(lp.iter)}` is neither zip(K_list, factors) nor zip_longest(…, fillvalue=0)")
+        return
+    r6.check(ok, "stored factors are padded with zeros to the length of the stored K-list before they are assigned", runf, lp,
+             f"restart: {why}; K-points created after the restart iteration keep their pickled non-zero weight while their parents are "
+             f"re-activated, so the weights no longer sum to one", stmt="restart padding")
 
 
 def run(ctx) -> None:
@@ -311,18 +410,26 @@ def run(ctx) -> None:
              stmt="tetra tiling")
     pd = idx.function(KP, "KpointBZparallel.divide")
     PS = Sem(idx, pd)
-    pc = [c_ for c_ in ast.walk(pd.node) if isinstance(c_, ast.Call) and call_name(c_) == "KpointBZparallel"]
+    pcc = _child_ctor(PS, pd, "KpointBZparallel")
+    pc = [site_ for site_, _ in pcc]
+    pexp = pcc[0][1] if len(pcc) == 1 else None
     ok_p = False
-    if len(pc) == 1 and kwarg(pc[0], "K") is not None and kwarg(pc[0], "dK") is not None:
+    if pexp is not None and kwarg(pexp, "K") is not None and kwarg(pexp, "dK") is not None:
         from ..algebra import Rat, to_rat
         at_p = PS.cfg.node(enclosing(PS.pm, pc[0], ast.stmt))
         ndp = pd.params[1]
         its = _iter_space(PS, pc[0])
         ivec = None
-        if len(its) == 3 and [norm(it) for _, it, _ in its] == [f"range({ndp}[{k}])" for k in range(3)]:
+        ivecs = ()
+        PS.keep_names = {ndp}
+        it_txt = [PS.rnorm(it, at_p) for _, it, _ in its]
+        PS.keep_names = set()
+        if len(its) == 3 and it_txt == [f"range({ndp}[{k}])" for k in range(3)]:
             ivec = f"np.array([{its[0][0]}, {its[1][0]}, {its[2][0]}])"
-        elif len(its) == 1 and norm(its[0][1]) == f"np.ndindex(*{ndp})":
+            ivecs = (ivec, f"np.array(({its[0][0]}, {its[1][0]}, {its[2][0]}))")
+        elif len(its) == 1 and it_txt[0] == f"np.ndindex(*{ndp})":
             ivec = f"np.array({its[0][0]})"
+            ivecs = (ivec,)
 
         def envp(x):
             t_ = norm(x)
@@ -332,12 +439,14 @@ def run(ctx) -> None:
                 return Rat.sym("d")
             if t_ == ndp:
                 return Rat.sym("n")
-            if ivec is not None and t_ == ivec:
+            if ivec is not None and t_ in ivecs:
                 return Rat.sym("i")
             return None
         try:
-            kk = to_rat(PS.resolve(kwarg(pc[0], "K"), at_p), envp)
-            dd = to_rat(PS.resolve(kwarg(pc[0], "dK"), at_p), envp)
+            PS.keep_names = {ndp} | {t_ for t_, _, _ in its}
+            kk = to_rat(PS.resolve(kwarg(pexp, "K"), at_p), envp)
+            dd = to_rat(PS.resolve(kwarg(pexp, "dK"), at_p), envp)
+            PS.keep_names = set()
             K_, d_, n_, i_ = Rat.sym("K"), Rat.sym("d"), Rat.sym("n"), Rat.sym("i")
             ok_p = ivec is not None and dd.equals(d_ / n_) and kk.equals(K_ + (d_ / n_ - d_) / Rat.const(2) + (d_ / n_) * i_)
         except AnalysisError:
@@ -418,6 +527,9 @@ def run(ctx) -> None:
     # ---------------------------------------------------------------- R06.5
     kpoint_action(ctx, "R06.5")
 
+    # ---------------------------------------------------------------- R06.6
+    restart_weights(ctx)
+
 
 def kpoint_action(ctx, rid: str) -> None:
     """k ↦ iTR · iInv · R k (shared by C06 and C07)."""
@@ -460,6 +572,12 @@ def kpoint_action(ctx, rid: str) -> None:
 from ..selftest import V  # noqa: E402
 
 SELFTEST = [
+    V("restart: factors padded after they were assigned (seeded C06-m4)", "wannierberri/run_grid.py",
+      "        factors = np.hstack([factors, np.zeros(len(K_list) - len(factors))])  # If we have more K-points than factors, add zeros for the new ones\n        for ik, (Kp, fac) in enumerate(zip(K_list, factors)):\n            Kp.set_factor(fac)\n",
+      "        for ik, (Kp, fac) in enumerate(zip(K_list, factors)):\n            Kp.set_factor(fac)\n        factors = np.hstack([factors, np.zeros(len(K_list) - len(factors))])\n", "fire", "R06.6"),
+    V("neutral: restart padding through np.concatenate and a named count", "wannierberri/run_grid.py",
+      "        factors = np.hstack([factors, np.zeros(len(K_list) - len(factors))])  # If we have more K-points than factors, add zeros for the new ones\n",
+      "        n_new = len(K_list) - len(factors)\n        factors = np.concatenate((factors, np.zeros(n_new)))\n", "silent"),
     V("time reversal no longer flips k (seeded C06-m1)", PS, "* (self.iTR * self.iInv)", "* self.iInv", "fire", "R06.5"),
     V("refined tetrahedron keeps its weight (seeded C06-m2)", KT,
       "        self.set_factor(0)  # the K-point is \"dead\" but can be used for starting calculation on a different grid  - not implemented\n", "", "fire", "R06.2"),
